@@ -259,3 +259,69 @@ def plan_C15(tier, seed, q):
             "last use no client-side connection is open; none is open after Transport.Close",
             "jobs": jobs, "min_evaluations": 100, "min_distinct": 50, "assumptions": V_ASSUME + [
                 "a connection closed by housekeeping inside the H1 window before the request was written is outside the statement and only counted"]}
+
+
+def policy_jobs(prop, tier, seed, cls, n, shards=6, kind="vt", timeout=1500):
+    return shard(kind, "policy", prop, tier, seed, n, shards, timeout=timeout, extra={"class": cls})
+
+
+POLICY_ASSUME = ["the fake RoundTripper (scripted health and latency per address) stands for Transport + network",
+                 "go1.26.8 testing/synctest virtual clock: the duration the Client measures is exactly the scripted latency"]
+
+
+def plan_C16(tier, seed, q):
+    n = 1500 if q else 40000
+    jobs = policy_jobs("C16", tier, seed, "route", n, shards=8)
+    if not q:
+        jobs += policy_jobs("C16", tier, seed + 1, "route", 3000, shards=8, kind="vt-race", timeout=3000)
+    return {"level": "exploration",
+            "rule": "history = 1-7 concurrent callers (all call forms except Ping, each call tagged with a unique token visible to the fake RoundTripper) x "
+                    "3-10 Update calls with overlapping/duplicate/empty target sets x Director changes x scripted health flapping x all three policies, "
+                    "<= ~200 operations each; every history is checked with porcupine for linearizability against the sequential model 'state = last "
+                    "supplied set; a route returns a member of the state'; call stamp = API invocation, return stamp = arrival at the RoundTripper, both "
+                    "from one logical counter; routes to a Director address must coincide with a Director invocation returning it; distinct = distinct "
+                    "history (index, callers, operation count, policy); non-trivial = more than one route operation",
+            "jobs": jobs, "min_evaluations": 200, "min_distinct": 100, "assumptions": POLICY_ASSUME + ["porcupine v1.3.0; a 60 s checker timeout is reported as inconclusive"]}
+
+
+def plan_C17(tier, seed, q):
+    n = 900 if q else 30000
+    jobs = policy_jobs("C17", tier, seed, "policy", n, shards=8)
+    return {"level": "exploration",
+            "rule": "sequence = single caller, 2-8 live targets, policy in {RoundRobin, Random, LeastTime}, Alpha in {0.1,0.5,0.8,0.99}, Tick in {10ms,100ms,1s}, "
+                    "latency profile in {constant, swapped mid-run, drifting}, call spacing co-prime with Tick, 120-220 calls, optionally one target "
+                    "refusing for 50 ms; a shadow model computes probe/non-probe classification, the argmin set and every EWMA estimate exactly (virtual "
+                    "time) and is compared with the observed target of every call and with hook VerifLatencies after every call; RoundRobin windows "
+                    "of n calls must hit n distinct targets; probes must rotate cyclically; distinct = distinct (parameters, hash of the route sequence)",
+            "jobs": jobs, "min_evaluations": 200, "min_distinct": 100, "assumptions": POLICY_ASSUME}
+
+
+def plan_C18(tier, seed, q):
+    n = 1600 if q else 40000
+    jobs = policy_jobs("C18", tier, seed, "failover", n, shards=8)
+    if not q:
+        jobs += policy_jobs("C18", tier, seed + 1, "failover", 3000, shards=8, kind="vt-race", timeout=3000)
+    return {"level": "fault_enumeration",
+            "rule": "history = variant in {waiters, close, fallback, failover} x 2-4 targets x DialTimeout in {50ms,300ms,5s} x ping latency 0-3 ms x optional hook-H1 "
+                    "delay (0-250 ms) inside the lost-wake-up window x 1-64 concurrent waiting callers of all six call forms; up/down script per target; "
+                    "oracles in exact virtual time: a routed waiter was released within one detector tick + ping latency of a target coming up; a waiter "
+                    "released by Close returns ErrShutdown at that instant; otherwise it returns ErrTimeout exactly at start+DialTimeout (Call/"
+                    "CallWithContext; the other forms a non-nil error); nobody waits longer; calls after Close fail in zero time; a refusing target stops "
+                    "receiving user calls within 2 ticks + ping latency of the first failure and is used again within 1.5 s of recovering",
+            "jobs": jobs, "min_evaluations": 200, "min_distinct": 100, "assumptions": POLICY_ASSUME + [
+                "'no target is live' means the client's live set is empty (never up, or seen refusing by the client); the single-believed-live-target fast path is not judged"]}
+
+
+def plan_C20(tier, seed, q):
+    n = 600 if q else 20000
+    jobs = shard("vt", "lifecycle", "C20", tier, seed, n, 8, timeout=1500)
+    if not q:
+        jobs += shard("vt-race", "lifecycle", "C20", tier, seed + 1, 1500, 8, timeout=3000)
+    return {"level": "exploration",
+            "rule": "history = usage before Close in {idle, calls in flight held by gated handlers, open streams with blocked readers, Transport with pooled "
+                    "connections, Client with routed or waiting callers, peers reset first, abandoned context calls} x I/O mode combination x header encoder x "
+                    "every order of closing {connections, Transport, Client, Server} (each Close called twice), then the handler gates are opened; at "
+                    "quiescence plus 5 virtual seconds: no goroutine created since the scenario began has a frame of hslam/rpc, scheduler, writer or socket "
+                    "on its stack, no memnet connection end is open on either side, Listen has returned, second Conn.Close == ErrShutdown, the other "
+                    "second Close calls == nil; distinct = distinct history parameters",
+            "jobs": jobs, "min_evaluations": 100, "min_distinct": 50, "assumptions": V_ASSUME + ["poll-mode servers are excluded by the statement"]}
